@@ -12,7 +12,7 @@ git -C $WT checkout -q -- . ; git -C $WT clean -fdq
 if ! git -C $WT apply "$PATCH"; then echo "PATCH DOES NOT APPLY"; exit 2; fi
 for id in "$@"; do
   rm -rf /tmp/seeded_replays$TAG; 
-  VERIF_REPO=$WT $VD/check $id quick --evidence /tmp/seeded_ev$TAG.json --replay-dir /tmp/seeded_replays$TAG > /tmp/seeded_out$TAG.log 2>&1
+  VERIF_REPO=$WT $VD/check $id quick $SEEDED_EXTRA --evidence /tmp/seeded_ev$TAG.json --replay-dir /tmp/seeded_replays$TAG > /tmp/seeded_out$TAG.log 2>&1
   code=$?
   echo "$id exit=$code $(grep -m1 -A1 '^VIOLATION' /tmp/seeded_out$TAG.log | tr '\n' ' ' | cut -c1-300) $(grep -m1 'HARNESS-ERROR' /tmp/seeded_out$TAG.log | cut -c1-200)"
 done
